@@ -181,17 +181,34 @@ def dfdt(rc: RuleCtx, rule_range: Optional[str], rule_crit: Optional[str], rule_
                           construct="dfdt refinement")
     # loop test: last < knee and len(x) - cutoff > 2
     n = sym("n")
-    if len(last) != 1:
+    tail_gt2 = canon_sign(n - sym(cut) - C(2), OPS[">"])
+    broke = g_or(*outb.breaks) if outb.breaks else FALSE
+    rotated = False
+    if len(last) == 1:
+        lname = last[0]
+        want_test = g_and(canon_sign(sym(lname) - sym(kname), OPS["<"]), tail_gt2)
+        alt_test = g_and(canon_sign(sym(lname) - sym(kname), OPS["<"]), canon_sign(n - sym(cut) - C(3), OPS[">="]))
+        test_ok = (g_equiv(test, want_test) or g_equiv(test, alt_test)) and not outb.breaks
+        last_new = outb.env.get(lname)
+        carried_ok = isinstance(last_new, Rat) and last_new.equals(sym(kname))
+    else:
+        lname, last_new = None, None
+        want_test = tail_gt2
+        test_ok = carried_ok = False
+    if not (test_ok and carried_ok) and outb.breaks and isinstance(knee_new, Rat):
+        # the rotated form: `while tail > 2: previous = knee; knee = step(..); if knee <= previous: break; cutoff = ..` - the same
+        # continuation condition, tested right after the step instead of at the top of the next round
+        moved = canon_sign(knee_new - sym(kname), OPS[">"])
+        same_top = g_equiv(test, tail_gt2) or g_equiv(test, canon_sign(n - sym(cut) - C(3), OPS[">="]))
+        if same_top and g_equiv(g_and(test, broke), g_and(test, g_not(moved))):
+            rotated = True
+            test_ok = carried_ok = True
+    if len(last) != 1 and not rotated:
         raise AnalysisError("dfdt.knee: cannot identify the previous-knee variable")
-    lname = last[0]
-    want_test = g_and(canon_sign(sym(lname) - sym(kname), OPS["<"]), canon_sign(n - sym(cut) - C(2), OPS[">"]))
-    alt_test = g_and(canon_sign(sym(lname) - sym(kname), OPS["<"]), canon_sign(n - sym(cut) - C(3), OPS[">="]))
-    test_ok = g_equiv(test, want_test) or g_equiv(test, alt_test)
-    last_new = outb.env.get(lname)
-    carried_ok = isinstance(last_new, Rat) and last_new.equals(sym(kname))
     if rule_term:
         if test_ok and carried_ok and step_ok and good_step:
-            res.ok(rule_term, "dfdt.knee:variant", "strict progress: continues only while last_knee < knee, last_knee <- knee, knee bounded by n-2 (step interval) => terminates")
+            res.ok(rule_term, "dfdt.knee:variant", "strict progress: continues only while the knee moved right (" + ("break right after the step" if rotated else "last_knee < knee, last_knee <- knee")
+                   + "), knee bounded by n-2 (step interval) => terminates")
         else:
             res.violation(rule_term, fi.module, fi.name, loop,
                           "the DFDT refinement loop has no recognisable variant (continue iff the knee moved right and the tail has > 2 points; previous <- current; knee <= n-2)",
